@@ -287,6 +287,7 @@ func buildHistory(rt *rapid.T, full bool) (*histBuilder, string) {
 	tn := "tn-root"
 	b.send(o0, fttypes.NewMsgProvisionFileTree(o0.Bech, accessJSON("e", tn, o0.Bech), accessJSON("v", tn, o0.Bech), tn))
 	b.send(o0, fttypes.NewMsgPostKey(o0.Bech, "pubkey-of-o0"))
+	b.send(other[1], fttypes.NewMsgPostKey(strings.ToUpper(other[1].Bech), "pubkey-under-another-spelling")) // same account, upper-case bech32
 	root := fttypes.MerklePath("s")
 	b.send(o0, fttypes.NewMsgPostFile(o0.Bech, hexsha(o0.Bech), root, hexsha("home"), "contents", accessJSON("v", "tn1", o0.Bech), accessJSON("e", "tn1", o0.Bech), "tn1"))
 	b.send(other[0], &notiftypes.MsgCreateNotification{Creator: other[0].Bech, To: o0.Bech, Contents: `{"hello":1}`})
